@@ -6,16 +6,16 @@ Local Open Scope N_scope.
 
 Definition xj_c1 : client :=
   mkClient 1 false [GAuthorizationCode; GRefreshToken; GImplicit] ["code"; "code id_token"]
-    ["https://c1.example/cb"] "openid email" CibaNone false false false false false false false 0 false.
+    ["https://c1.example/cb"] "openid email" CibaNone false false false false false false false 0 false None.
 Definition xj_jx : jworld :=
   mkJWorld (mkJCfg [AES256] false [] 0) [(1, mkJClient [mkJwk 611 AES256 511] None None)].
 Definition xj_params (rt : string) (ch : pk) (m nonce : string) : params :=
-  mkParams 0 "https://c1.example/cb" "" rt "openid" "st" nonce ch m 0 "" 0 "" [].
+  mkParams 0 "https://c1.example/cb" "" rt "openid" "st" nonce ch m 0 "" 0 "" [] None.
 Definition xj_obj (p : params) : req_object :=
   mkRO EncNone (SigBy 511) AES256 611 1 true (Some 300%Z) (Some (-10)%Z) (Some (-10)%Z) true 1 false false p.
 Definition xj_ch : pk := PkHash (PkRaw 1 true).
 Definition xj_auth (outer inner : params) : gop :=
-  GAuthorize (mkJAReq (mkAReq 1 outer true (PolSuccess "alice" "openid" [])) (JValue (xj_obj inner))).
+  GAuthorize (mkJAReq (mkAReq 1 outer true (PolSuccess "alice" "openid" [] [])) (JValue (xj_obj inner))).
 Definition xj_par (outer inner : params) : gop :=
   GPar (mkPReq (mkCred 1 true) outer no_bind) (Some (xj_obj inner)).
 Definition xj_run (p : profile) (opts : list opt) (ops : list gop) : option (list bool) :=
